@@ -289,6 +289,24 @@ def h_misc(ctx, what):
     ctx.check('a weak handler that asked to be removed is not invoked again',
               calls == ['first'] + ([] if removes else ['weak']) + ([] if (halts and not removes) else ['last']))
     ctx.check('listener count', src._eventMixin_get_listener_count() == (2 if removes else 3))
+  elif what == 'remove_by_reference':
+    # one callable subscribed to both event types of the source (plus an unrelated handler on each), unsubscribed by reference without naming
+    # an event type - from outside or by the handler itself during a delivery (solver-chosen): it is gone for *every* type
+    calls = []
+    inside = bool(ctx.bool('from_inside')); first = int(ctx.int('first_type', 0, 1))
+    def h(e):
+      calls.append(type(e).__name__)
+      if inside and armed[0]: armed[0] = False; src.removeListener(h)
+    armed = [True]
+    order = [w.E1, w.E2] if first == 0 else [w.E2, w.E1]
+    for t in order: src.addListener(t, h)
+    src.addListener(w.E1, lambda e: calls.append('other1')); src.addListener(w.E2, lambda e: calls.append('other2'))
+    if inside: src.raiseEvent(order[0])
+    else: ctx.check('removeListener(handler) reports a removal', src.removeListener(h) is True)
+    del calls[:]
+    src.raiseEvent(w.E1); src.raiseEvent(w.E2())
+    ctx.check('a handler unsubscribed by reference is not invoked for any event type', calls == ['other1', 'other2'])
+    ctx.check('listener count', src._eventMixin_get_listener_count() == 2)
   elif what == 'bulk_remove':
     # removeListeners(list of ids): every listed subscription is gone afterwards, whichever of them are still live (solver-chosen subset was
     # already removed one by one), the others stay; the result says whether anything was removed
@@ -361,6 +379,6 @@ def obligations(tier):
   return [
     Obligation('O1_histories', h_history, [dict(plan=p, behs=behs) for p in plans], witnesses=('done',), max_decisions=20000,
                desc='invocation log == reference dispatcher over symbolic histories'),
-    Obligation('O2_misc', h_misc, [dict(what=x) for x in ('undeclared', 'weak', 'weak_during', 'noerrors_kinds', 'bulk_remove', 'weak_control', 'autobind')], witnesses=('done',),
+    Obligation('O2_misc', h_misc, [dict(what=x) for x in ('undeclared', 'weak', 'weak_during', 'noerrors_kinds', 'bulk_remove', 'remove_by_reference', 'weak_control', 'autobind')], witnesses=('done',),
                desc='undeclared types rejected; weak handlers; autoBindEvents/removeListeners'),
   ]
